@@ -40,8 +40,11 @@ var (
 
 func TestMain(m *testing.M) {
 	glue.SilenceKlog()
-	pool = gen.NewPool(glue.NewPoolArgs())
+	pool = gen.NewPool(glue.NewCollectorPoolArgs())
 	if rp := ev.LoadReplay(); rp != nil {
+		if rp.Phase == "verbose_logging" {
+			glue.SetKlogVerbosity(5)
+		}
 		if rp.Phase == "tcp_retention" {
 			ev.RunReplay(rp, runTCase)
 		}
@@ -572,8 +575,17 @@ func TestC03(t *testing.T) {
 	}) {
 		return
 	}
-	ev.Rapid(t, rec, "histories", rec.Scale(50000, 10000000), genCase, func(c Case) *ev.Failure {
+	if !ev.Rapid(t, rec, "histories", rec.Scale(50000, 10000000), genCase, func(c Case) *ev.Failure {
 		return runRecorded("histories", c)
+	}) {
+		return
+	}
+	// the same oracle with the process-wide log verbosity raised (the decoder logs at V(4)/V(5);
+	// logging must not change what is decoded)
+	glue.SetKlogVerbosity(5)
+	defer glue.SetKlogVerbosity(0)
+	ev.Rapid(t, rec, "verbose_logging", rec.Scale(2500, 200000), genCase, func(c Case) *ev.Failure {
+		return runRecorded("verbose_logging", c)
 	})
 }
 
